@@ -1,4 +1,4 @@
-import argparse, fcntl, json, os, re, shutil, subprocess, sys, time, glob
+import argparse, fcntl, json, os, re, shlex, shutil, subprocess, sys, tempfile, time, glob
 from concurrent.futures import ThreadPoolExecutor
 
 ROOT = os.path.dirname(os.path.dirname(os.path.abspath(__file__)))
@@ -205,6 +205,53 @@ def run_harness(pid, seed, tier, extra=None, binary="harness", timeout=3000):
     return rc, log, meta
 
 
+
+# ---------------------------------------------------------------------------------------------
+# scenario corpus: /verif/corpus/scenarios/<pid>/*.json
+# ---------------------------------------------------------------------------------------------
+def scenario_files(pid):
+    return sorted(glob.glob(os.path.join(ROOT, "corpus", "scenarios", pid, "*.json")))
+
+
+def run_scenarios(pid):
+    """Fixed inputs with the result the property prescribes, written down by hand: each is a finding that was
+    met once (a known one, or a repaired one kept as a regression).  A scenario is {key, what, files:{name:text},
+    script (sh, run in a scratch directory with csvq = the binary built from /repo's working tree, under ulimit
+    and timeout), expect_stdout [, expect_exit] [, sorted]}.  Returns (n_run, violations)."""
+    vs = []
+    n = 0
+    for path in scenario_files(pid):
+        sc = json.load(open(path, encoding="utf-8"))
+        d = tempfile.mkdtemp(prefix="csvqv-scn-")
+        try:
+            for name, text in (sc.get("files") or {}).items():
+                with open(os.path.join(d, name), "w", encoding="utf-8", newline="") as f:
+                    f.write(text)
+            env = dict(GOENV, PATH=BUILD + os.pathsep + os.environ.get("PATH", ""), HOME=d)
+            rc, out = sh("ulimit -v 2000000; timeout -s KILL %d sh -c %s" % (sc.get("timeout", 30), shlex.quote(sc["script"])), cwd=d, env=env, timeout=sc.get("timeout", 30) + 30)
+            left = sorted(x for x in os.listdir(d) if x not in (sc.get("files") or {}) and not x.startswith("out."))
+        finally:
+            shutil.rmtree(d, ignore_errors=True)
+        n += 1
+        got = out
+        want = sc.get("expect_stdout")
+        if sc.get("sorted") and want is not None:
+            got = "\n".join(sorted(got.splitlines()))
+            want = "\n".join(sorted(want.splitlines()))
+        bad = []
+        if want is not None and got.strip() != want.strip():
+            bad.append("output differs")
+        if "expect_exit" in sc and rc != sc["expect_exit"]:
+            bad.append("exit status %s, expected %s" % (rc, sc["expect_exit"]))
+        if "expect_files" in sc and left != sorted(sc["expect_files"]):
+            bad.append("files left in the directory: %s, expected %s" % (left, sorted(sc["expect_files"])))
+        if bad:
+            vs.append(dict(tags=[sc["key"]], nofail=False,
+                           what="scenario %s: %s (%s)" % (os.path.basename(path), sc.get("what", ""), "; ".join(bad)),
+                           replay=dict(kind="failing-input", check="scenario", case=dict(scenario=os.path.relpath(path, ROOT), files=sc.get("files"), script=sc["script"],
+                                                                                       expected=sc.get("expect_stdout"), observed=out[-3000:], exit=rc, files_left=left))))
+    return n, vs
+
 # ---------------------------------------------------------------------------------------------
 # findings, evidence, main
 # ---------------------------------------------------------------------------------------------
@@ -282,7 +329,7 @@ def run_property(pid, cfg, tier, seed, only_id):
                                replay=dict(kind="no-failing-input-found", theorem_or_correspondence=cfg["theorem_file"], detail=what)))
 
     # 2. implementation -------------------------------------------------------------------
-    ok, log = build_go(need_csvq=cfg.get("needs_csvq", False), race=cfg.get("race", False))
+    ok, log = build_go(need_csvq=cfg.get("needs_csvq", False) or bool(scenario_files(pid)), race=cfg.get("race", False))
     if not ok:
         print(log[-3000:])
         print("check: cannot build the harness against /repo's working tree", file=sys.stderr)
@@ -321,6 +368,12 @@ def run_property(pid, cfg, tier, seed, only_id):
                                                theorem_or_correspondence=kdesc, id=cid, case=case, model_expected=expected)))
     for d in (meta.get("direct") or []):
         violations.append(dict(tags=[d["key"]], what=d["what"], nofail=False, replay=dict(kind="failing-input", check="direct", case=d.get("case"))))
+    if not only_id:
+        nscn, svs = run_scenarios(pid)
+        violations.extend(svs)
+        if nscn:
+            meta["evaluations"] = meta.get("evaluations", 0) + nscn
+            notes.append("%d fixed scenarios of corpus/scenarios/%s run through the csvq binary" % (nscn, pid))
     return finish(pid, cfg, tier, seed, t0, violations, meta, thm, results, notes)
 
 
